@@ -112,10 +112,12 @@ def calculateMappings (cfg : Cfg) (peers shares : List Nat) (servermap : SetMap)
   convertMappings peerTbl shareTbl (computeMaximumGraph g shareIndices)
 
 /-- `_extract_ids(mappings)`: (peers, shares) that are mapped -/
-def extractIds (m : List (Nat × Option Nat)) : List Nat × List Nat :=
-  m.foldl (fun acc e => match e.2 with
-    | none => acc
-    | some p => (sinsert p acc.1, sinsert e.1 acc.2)) ([], [])
+def extractStep (acc : List Nat × List Nat) (e : Nat × Option Nat) : List Nat × List Nat :=
+  match e.2 with
+  | none => acc
+  | some p => (sinsert p acc.1, sinsert e.1 acc.2)
+
+def extractIds (m : List (Nat × Option Nat)) : List Nat × List Nat := m.foldl extractStep ([], [])
 
 /-- `PriorityQueue.get()` on a list of `(priority, peerid)` tuples: the least tuple -/
 def pqMin : List (Nat × Nat) → Option (Nat × Nat)
@@ -124,32 +126,45 @@ def pqMin : List (Nat × Nat) → Option (Nat × Nat)
     | none => some a
     | some b => if a.1 < b.1 ∨ (a.1 = b.1 ∧ a.2 ≤ b.2) then some a else some b
 
+/-- first loop of `_distribute_homeless_shares`: a homeless share that some server of the
+(writable) servermap already holds is mapped to the first such server in dict order (lease
+renewal); the others are collected in `to_distribute` -/
+def dhRenew (p2s : SetMap) (shareids : List Nat) (st : List (Nat × Option Nat) × List Nat)
+    (share : Nat) : List (Nat × Option Nat) × List Nat :=
+  if shareids.contains share then
+    match p2s.find? (fun e => e.2.contains share) with
+    | some e => (dictSet share (some e.1) st.1, st.2)
+    | none => st
+  else (st.1, sinsert share st.2)
+
+/-- `priority[peer] += 1` for a mapped peer of the servermap -/
+def dhCount (peerids : List Nat) (pr : List (Nat × Nat)) (e : Nat × Option Nat) : List (Nat × Nat) :=
+  match e.2 with
+  | none => pr
+  | some p => if peerids.contains p then pr.map (fun x => if x.1 = p then (x.1, x.2 + 1) else x) else pr
+
+/-- last loop: the share goes to the peer with the least `(priority, peerid)` tuple, which is put
+back with its priority incremented -/
+def dhAssign (st : List (Nat × Option Nat) × List (Nat × Nat)) (share : Nat) :
+    List (Nat × Option Nat) × List (Nat × Nat) :=
+  match pqMin st.2 with
+  | none => st          -- unreachable: the queue keeps its size
+  | some pk => (dictSet share (some pk.2) st.1, (st.2.erase pk) ++ [(pk.1 + 1, pk.2)])
+
 /-- `_distribute_homeless_shares(mappings, homeless_shares, peers_to_shares)` (mutates and, in
 the model, returns `mappings`); `p2s` in dict order. -/
 def distributeHomeless (mappings : List (Nat × Option Nat)) (homeless : List Nat) (p2s : SetMap) :
     List (Nat × Option Nat) :=
   let peerids := mkSet (p2s.map (·.1))
   let shareids := mkSet (p2s.flatMap (·.2))
-  -- first loop: renew leases where some server already holds the share
-  let st := homeless.foldl (fun (st : List (Nat × Option Nat) × List Nat) share =>
-      if shareids.contains share then
-        match p2s.find? (fun e => e.2.contains share) with
-        | some e => (dictSet share (some e.1) st.1, st.2)
-        | none => st
-      else (st.1, sinsert share st.2)) (mappings, [])
+  let st := homeless.foldl (dhRenew p2s shareids) (mappings, [])
   let mappings := st.1
   let toDistribute := st.2
   let prio0 : List (Nat × Nat) := peerids.map (fun p => (p, 0))
-  let prio := mappings.foldl (fun (pr : List (Nat × Nat)) e => match e.2 with
-      | none => pr
-      | some p => if peerids.contains p then pr.map (fun x => if x.1 = p then (x.1, x.2 + 1) else x) else pr) prio0
+  let prio := mappings.foldl (dhCount peerids) prio0
   if prio.isEmpty then mappings else
   let pq : List (Nat × Nat) := prio.map (fun x => (x.2, x.1))
-  (toDistribute.foldl (fun (st : List (Nat × Option Nat) × List (Nat × Nat)) share =>
-      match pqMin st.2 with
-      | none => st          -- unreachable: the queue keeps its size
-      | some pk => (dictSet share (some pk.2) st.1, (st.2.erase pk) ++ [(pk.1 + 1, pk.2)]))
-    (mappings, pq)).1
+  (toDistribute.foldl dhAssign (mappings, pq)).1
 
 /-- result of `share_placement`; `hang` = the round-robin generator over an empty set of writable
 peers would spin forever (`next(peer_iter)` never returns). -/
@@ -158,12 +173,18 @@ inductive Placement where
   | hang
 deriving Repr, DecidableEq
 
+/-- one item of the final dict comprehension: `v.pop() if v else next(peer_iter)`; the state is
+the dict so far and the number of `next` calls made -/
+def finalizeStep (rr : List Nat) (st : List (Nat × Nat) × Nat) (e : Nat × Option Nat) :
+    List (Nat × Nat) × Nat :=
+  match e.2 with
+  | some p => (st.1 ++ [(e.1, p)], st.2)
+  | none => (st.1 ++ [(e.1, rr.getD (st.2 % rr.length) 0)], st.2 + 1)
+
 /-- the final dict comprehension with the round-robin iterator -/
 def finalize (rr : List Nat) (mappings : List (Nat × Option Nat)) : Placement :=
   if rr.isEmpty ∧ mappings.any (fun e => e.2.isNone) then .hang else
-  .ok (mappings.foldl (fun (st : List (Nat × Nat) × Nat) e => match e.2 with
-    | some p => (st.1 ++ [(e.1, p)], st.2)
-    | none => (st.1 ++ [(e.1, rr.getD (st.2 % rr.length) 0)], st.2 + 1)) ([], 0)).1
+  .ok (mappings.foldl (finalizeStep rr) ([], 0)).1
 
 /-- `share_placement(peers, readonly_peers, shares, peers_to_shares)`; the three sets as lists in
 any order (normalised to sets), `peers_to_shares` in dict order. -/
